@@ -599,7 +599,7 @@ def _reject_scenario(c, attempt):
         elif what == "length_mismatch":
             tp = [[prog["q0"]], [prog["q1"]], []]
         elif what == "overlap":
-            tp = [[prog["q0"]], [prog["q1"], prog["p1"]]]
+            tp = [[prog["q0"], prog["p1"]], [prog["q1"]]] if int(c.get("which", 0)) == 1 else [[prog["q0"]], [prog["q1"], prog["p1"]]]
         elif what == "duplicate_param":
             if int(c.get("which", 0)) == 0:
                 tp = [[prog["q0"]], [prog["q1"], prog["q1"]]]
